@@ -35,8 +35,10 @@ def Sync_COMMAND : Bytes := [0x53]
 def SslRequest_MESSAGE_SIZE : Nat := 8
 def SslRequest_REQUEST_CODE : Nat := 80877103
 
-/-- `MySQLCapability.CLIENT_PROTOCOL_41`, `CLIENT_PLUGIN_AUTH` (members of the regenerated table) -/
+/-- `MySQLCapability.CLIENT_PROTOCOL_41`, `CLIENT_SECURE_CONNECTION`, `CLIENT_PLUGIN_AUTH` (members of the
+regenerated table) -/
 def CLIENT_PROTOCOL_41 : Nat := 0x200
+def CLIENT_SECURE_CONNECTION : Nat := 0x8000
 def CLIENT_PLUGIN_AUTH : Nat := 0x80000
 
 /-! ### primitives of `common/parse.py` used only by these classes -/
@@ -161,7 +163,23 @@ structure MySqlHandshakeV10 where
   authPluginName : Option Bytes
 deriving Repr, DecidableEq
 
-/-- `MySQLHandshakeV10._parse` -/
+/-- `MySQLHandshakeV10._get_auth_plugin_data_2_len(capabilities, auth_plugin_data_len)`:
+`MAX(13, auth_plugin_data_len - 8)` with `CLIENT_PLUGIN_AUTH` (a length below 8 gives 13: the
+difference is negative in Python, zero here); 13 with `CLIENT_SECURE_CONNECTION` alone, where the
+length octet is a filler; no second part otherwise. -/
+def authPluginData2Len (caps : List Nat) (apdl : Nat) : Nat :=
+  if caps.contains CLIENT_PLUGIN_AUTH then max 13 (apdl - 8)
+  else if caps.contains CLIENT_SECURE_CONNECTION then 13
+  else 0
+
+/-- `if auth_plugin_data_2_len: parser.parse_raw('auth_plugin_data_2', auth_plugin_data_2_len)`: the
+attribute stays `None` when the length is 0 -/
+def parseAuthData2 (len2 : Nat) (rest : Bytes) : Except PErr (Option Bytes × Nat) :=
+  if len2 != 0 then (parseRaw (len2 : Int) rest).map fun (d, n) => (some d, n)
+  else pure (none, 0)
+
+/-- `MySQLHandshakeV10._parse` (repaired: the second part of the auth plugin data used to be read
+only with `CLIENT_PLUGIN_AUTH`, and as `auth_plugin_data_len - 8` bytes) -/
 def parseMySqlHandshakeV10 (bs : Bytes) : Except PErr (MySqlHandshakeV10 × Nat) :=
   if bs.length < MySQLHandshakeV10_MINIMUM_SIZE then
     .error (.notEnough ((MySQLHandshakeV10_MINIMUM_SIZE - bs.length : Nat) : Int))
@@ -190,22 +208,25 @@ def parseMySqlHandshakeV10 (bs : Bytes) : Except PErr (MySqlHandshakeV10 × Nat)
     let (_, n11) ← parseRaw 10 r10
     let r11 := r10.drop n11
     let p11 := n1 + n2 + n3 + n4 + n5 + n6 + n7 + n8 + n9 + n10 + n11
-    if caps.contains CLIENT_PLUGIN_AUTH then
-      if apdl == 0 then .error .invalidValue
-      else
-        let (apd2, n12) ← parseRaw ((apdl : Int) - 8) r11
-        let r12 := r11.drop n12
-        let (name, n13) ← parseStrNul r12
-        pure (⟨pv, sv, cid, apd, caps, cs, states, some apd2, some name⟩, p11 + n12 + n13)
+    let plugin := caps.contains CLIENT_PLUGIN_AUTH
+    if plugin && apdl == 0 then .error .invalidValue
     else
-      pure (⟨pv, sv, cid, apd, caps, cs, states, none, none⟩, p11)
+      let (apd2, n12) ← parseAuthData2 (authPluginData2Len caps apdl) r11
+      let r12 := r11.drop n12
+      if plugin then
+        let (name, n13) ← parseStrNul r12
+        pure (⟨pv, sv, cid, apd, caps, cs, states, apd2, some name⟩, p11 + n12 + n13)
+      else
+        pure (⟨pv, sv, cid, apd, caps, cs, states, apd2, none⟩, p11 + n12)
 
-/-- truthiness of `self.auth_plugin_data_2` -/
+/-- `b'' if self.auth_plugin_data_2 is None else self.auth_plugin_data_2` -/
 def data2Bytes : Option Bytes → Bytes
   | some d => d
   | none => []
 
-/-- `MySQLHandshakeV10.compose` -/
+/-- `MySQLHandshakeV10.compose` (repaired: a second part that `_parse` would not read back as it is
+written — its length is not the one `authPluginData2Len` gives for the length octet that goes on
+the wire — is an `InvalidValue`; so is a missing plugin name with `CLIENT_PLUGIN_AUTH`) -/
 def composeMySqlHandshakeV10 (h : MySqlHandshakeV10) : Except PErr Bytes := do
   let a ← composeNum .little 1 (h.protocolVersion : Int)
   let b ← composeStrNul h.serverVersion
@@ -218,14 +239,17 @@ def composeMySqlHandshakeV10 (h : MySqlHandshakeV10) : Except PErr Bytes := do
   let g ← composeFlags .little 2 16 upper
   let plugin := h.capabilities.contains CLIENT_PLUGIN_AUTH
   let d2 := data2Bytes h.authPluginData2
-  let l ← composeNum .little 1 (if plugin then ((8 + d2.length : Nat) : Int) else 0)
-  let nm ←
-    if plugin then
-      match h.authPluginName with
-      | some nm => composeStrNul nm
-      | none => .error (.crash "AttributeError")
-    else pure []
-  pure (a ++ b ++ c ++ h.authPluginData ++ [0] ++ d ++ e ++ f ++ g ++ l ++ List.replicate 10 0 ++ d2 ++ nm)
+  let apdl : Nat := if plugin then 8 + d2.length else 0
+  if d2.length != authPluginData2Len h.capabilities apdl then .error .invalidValue
+  else
+    let l ← composeNum .little 1 (apdl : Int)
+    let nm ←
+      if plugin then
+        match h.authPluginName with
+        | some nm => composeStrNul nm
+        | none => .error .invalidValue
+      else pure []
+    pure (a ++ b ++ c ++ h.authPluginData ++ [0] ++ d ++ e ++ f ++ g ++ l ++ List.replicate 10 0 ++ d2 ++ nm)
 
 /-! ### RDP: TPKT, X.224 connection request / confirm, negotiation request / response -/
 
@@ -334,6 +358,12 @@ structure RdpNeg where
   protocol : List Nat
 deriving Repr, DecidableEq
 
+/-- `cls(flags, protocol)`: the converter of the `protocol` attribute drops the zero-valued member
+`RDPProtocol.RDP` (repaired: `{RDP}` used to be a value of its own, which composed to the zero
+field and parsed back as the empty set) -/
+def RdpNeg.construct (cls : RdpNegClass) (flags protocol : List Nat) : RdpNeg :=
+  ⟨cls, flags, protocol.filter (· != 0)⟩
+
 /-- `RDPNegotiationBase._parse` called on class `want`; the object is built with `cls(...)` -/
 def parseRdpNeg (want : RdpNegClass) (bs : Bytes) : Except PErr (RdpNeg × Nat) :=
   if bs.length < RDPNegotiationBase_PACKET_LENGTH then
@@ -350,7 +380,7 @@ def parseRdpNeg (want : RdpNegClass) (bs : Bytes) : Except PErr (RdpNeg × Nat) 
       else
         let r3 := r2.drop n3
         let (proto, n4) ← parseFlags .little 4 0 Gen.RDPProtocol.codes r3
-        pure (⟨want, flags, proto⟩, n1 + n2 + n3 + n4)
+        pure (RdpNeg.construct want flags proto, n1 + n2 + n3 + n4)
 
 /-- `RDPNegotiationBase.compose` -/
 def composeRdpNeg (r : RdpNeg) : Except PErr Bytes := do
